@@ -8,7 +8,7 @@
 //! fast_forward(k) restarts. The streams are compared as lists / multisets of item fingerprints
 //! (input, target, token ids, labels).
 use crate::core::*;
-use crate::sched;
+use crate::sched::{self, Mode, Pt, RunEnd, Strategy};
 use rand::seq::IndexedRandom;
 use rand::Rng as _;
 use serde::{Deserialize, Serialize};
@@ -110,6 +110,24 @@ pub struct Case {
     pub ff_k: Vec<usize>,
     pub fresh_process: bool,
     pub chaos_seed: u64,
+    /// (threads, buffer size, strategy, seed): runs whose pipe workers, buffer thread and consumer
+    /// are serialised by the schedule controller
+    #[serde(default)]
+    pub sched_variants: Vec<(u8, usize, Strategy, u64)>,
+    /// history of one loader object (the trainer's flow: iter() to read min_items, load a
+    /// checkpoint = set_epoch + set_fast_forward, iter() again, train)
+    #[serde(default)]
+    pub history: Vec<Op>,
+}
+
+/// operations on ONE loader object before its final `iter()` + full iteration
+#[derive(Serialize, Deserialize, Clone, Debug)]
+pub enum Op {
+    Iter,
+    /// pull up to this many batches
+    Next(usize),
+    SetEpoch(usize),
+    SetFf(usize),
 }
 
 #[derive(Clone, Debug, PartialEq, Eq, Hash, PartialOrd, Ord, Serialize, Deserialize)]
@@ -327,6 +345,10 @@ pub struct Variant {
     pub shuffle: bool,
     pub sort: bool,
     pub chaos: u8,
+    pub sched: Option<(Strategy, u64)>,
+    pub epoch: Option<usize>,
+    /// operations applied to the loader before the final iter()
+    pub history: Vec<Op>,
 }
 
 fn parse_tag(target: &str) -> Option<(usize, usize)> {
@@ -393,8 +415,25 @@ pub fn run_loader(
         v.limit,
         v.distributed,
     )?;
-    h.set_epoch(c.epoch);
+    h.set_epoch(v.epoch.unwrap_or(c.epoch));
     h.set_fast_forward(v.ff);
+    for op in &v.history {
+        match op {
+            Op::Iter => h.iter()?,
+            Op::Next(n) => {
+                for _ in 0..*n {
+                    if h.next()?.is_none() {
+                        break;
+                    }
+                }
+            }
+            Op::SetEpoch(e) => h.set_epoch(*e),
+            Op::SetFf(k) => h.set_fast_forward(*k),
+        }
+    }
+    if let Some((strategy, sseed)) = &v.sched {
+        return run_controlled(h, v, strategy, *sseed);
+    }
     h.iter()?;
     let min_items = h.min_items();
     let mut batches = vec![];
@@ -419,6 +458,88 @@ pub fn run_loader(
     }
     s.set_chaos_all(0, 0);
     Ok((batches, min_items))
+}
+
+fn fingerprints(items: &[text_utils::data::TrainItem]) -> Vec<Fp> {
+    items
+        .iter()
+        .map(|it| {
+            let input = it.data.verif_input();
+            let target = it.data.verif_target();
+            Fp {
+                tag: parse_tag(target),
+                hash: hash64(&(input, target, format!("{:?}", it.input))),
+            }
+        })
+        .collect()
+}
+
+pub const DEADLOCK_PREFIX: &str = "controlled-schedule deadlock";
+
+/// iterate the loader with its pipe workers, its buffer thread and the consumer serialised at the
+/// schedule points by the controller (the batched / tensorized layers run inside the buffer thread)
+fn run_controlled(
+    mut h: Handle,
+    v: &Variant,
+    strategy: &Strategy,
+    sseed: u64,
+) -> anyhow::Result<(Vec<Vec<Fp>>, Option<usize>)> {
+    use std::sync::atomic::{AtomicBool, Ordering};
+    use std::sync::{Arc, Mutex};
+    let s = sched::sched();
+    s.ensure_installed();
+    s.set_chaos_all(0, 0);
+    let w = v.threads as usize;
+    s.reset(Mode::Controlled, w, true, (w + v.buffer).max(1));
+    let done = Arc::new(AtomicBool::new(false));
+    #[allow(clippy::type_complexity)]
+    let result: Arc<Mutex<Option<anyhow::Result<(Vec<Vec<Fp>>, Option<usize>)>>>> =
+        Arc::new(Mutex::new(None));
+    let (s2, done2, result2) = (s.clone(), done.clone(), result.clone());
+    let consumer = std::thread::Builder::new()
+        .name("consumer".into())
+        .spawn(move || {
+            let r = (|| -> anyhow::Result<(Vec<Vec<Fp>>, Option<usize>)> {
+                h.iter()?;
+                let min_items = h.min_items();
+                let mut batches = vec![];
+                loop {
+                    s2.consumer_point(Pt::ConsBeforeRecv, batches.len());
+                    match h.next()? {
+                        Some((items, _)) => {
+                            batches.push(fingerprints(&items));
+                            s2.consumer_point(Pt::ConsAfterRecvSome, batches.len());
+                            if batches.len() > 100_000 {
+                                anyhow::bail!("loader produced more than 100000 batches");
+                            }
+                        }
+                        None => {
+                            s2.consumer_point(Pt::ConsAfterRecvNone, batches.len());
+                            break;
+                        }
+                    }
+                }
+                Ok((batches, min_items))
+            })();
+            *result2.lock().unwrap() = Some(r);
+            s2.mark_exited(sched::CONSUMER);
+            done2.store(true, Ordering::SeqCst);
+        })?;
+    let r = sched::control(&s, strategy, sseed, &done, 2_000_000);
+    s.release_all();
+    match r.end {
+        RunEnd::Finished | RunEnd::Aborted => {
+            let _ = consumer.join();
+            result
+                .lock()
+                .unwrap()
+                .take()
+                .unwrap_or_else(|| Err(anyhow::anyhow!("consumer ended without a result")))
+        }
+        RunEnd::Deadlock(d) => Err(anyhow::anyhow!("{DEADLOCK_PREFIX}: {d}")),
+        RunEnd::Diverged(d) => Err(anyhow::anyhow!("INCONCLUSIVE replay diverged: {d}")),
+        RunEnd::Watchdog(d) => Err(anyhow::anyhow!("INCONCLUSIVE controller watchdog: {d}")),
+    }
 }
 
 fn flat(b: &[Vec<Fp>]) -> Vec<Fp> {
@@ -533,7 +654,8 @@ impl Prop for C08 {
          process; 2-4 (threads, buffer) variants with delay injection at the loader's schedule \
          points -> identical batch lists; raw-order run (shuffle and sort off) -> same multiset; all \
          ranks of a world W in 2..=4 -> union multiset equals the single-process stream, each rank a \
-         subsequence when unshuffled; limit=k / skip=k -> disjoint union equals the full stream; \
+         subsequence when unshuffled; one loader object with a history of iter / next / set_epoch / \
+         set_fast_forward calls vs a fresh loader with the same final (epoch, fast_forward); limit=k / skip=k -> disjoint union equals the full stream; \
          fast_forward(k) -> the items with global index >= skip+k (global indices from the repo's own \
          generator for the same strategy and seed), same order when shuffle and sort are off. Items \
          are compared by fingerprint (input, target, token ids, labels), which also checks that every \
@@ -794,6 +916,35 @@ impl Prop for C08 {
             ff_k: vec![rng.random_range(0..=total + 2), rng.random_range(0..=total / 2 + 1)],
             fresh_process: rng.random_range(0..8) == 0,
             chaos_seed: rng.random(),
+            history: if rng.random_bool(0.6) {
+                (0..rng.random_range(1..=4))
+                    .map(|_| match rng.random_range(0..8) {
+                        0..=2 => Op::Iter,
+                        3..=4 => Op::Next(rng.random_range(0..=3)),
+                        5 => Op::SetEpoch(rng.random_range(0..=3)),
+                        _ => Op::SetFf(rng.random_range(0..=total + 1)),
+                    })
+                    .collect()
+            } else {
+                vec![]
+            },
+            sched_variants: (0..rng.random_range(0..=2))
+                .map(|_| {
+                    let t = rng.random_range(0..=3u8);
+                    (
+                        t,
+                        rng.random_range(0..=2usize),
+                        match rng.random_range(0..6) {
+                            0..=1 => Strategy::Random,
+                            2 => Strategy::Burst,
+                            3 => Strategy::Pct(rng.random_range(1..=3)),
+                            4 => Strategy::ConsumerLast,
+                            _ => Strategy::Starve(rng.random_range(0..=t + 1)),
+                        },
+                        rng.random(),
+                    )
+                })
+                .collect(),
         }
     }
 
@@ -822,11 +973,14 @@ fn check_inner(c: &Case, files: &Files, obs: &mut Obs) {
         shuffle: c.shuffle,
         sort: c.sort,
         chaos: 0,
+        sched: None,
+        epoch: None,
+        history: vec![],
     };
     let describe = |v: &Variant| {
         format!(
-            "threads={} buffer={} distributed={:?} skip={} limit={:?} ff={} shuffle={} sort={} chaos={}",
-            v.threads, v.buffer, v.distributed, v.skip, v.limit, v.ff, v.shuffle, v.sort, v.chaos
+            "threads={} buffer={} distributed={:?} skip={} limit={:?} ff={} shuffle={} sort={} chaos={} sched={:?}",
+            v.threads, v.buffer, v.distributed, v.skip, v.limit, v.ff, v.shuffle, v.sort, v.chaos, v.sched
         )
     };
     let mut runs = 0u64;
@@ -835,10 +989,19 @@ fn check_inner(c: &Case, files: &Files, obs: &mut Obs) {
         match run_loader(c, files, v) {
             Ok((b, _)) => Some(b),
             Err(e) => {
-                obs.fail(
-                    "loader-error",
-                    format!("{}: loader returned an error: {e}", describe(v)),
-                );
+                let msg = e.to_string();
+                if msg.starts_with(DEADLOCK_PREFIX) {
+                    obs.fail("loader-deadlock", format!("{}: {msg}", describe(v)));
+                    obs.poison();
+                } else if msg.starts_with("INCONCLUSIVE") {
+                    obs.inconclusive(format!("{}: {msg}", describe(v)));
+                    obs.poison();
+                } else {
+                    obs.fail(
+                        "loader-error",
+                        format!("{}: loader returned an error: {e}", describe(v)),
+                    );
+                }
                 None
             }
         }
@@ -882,6 +1045,16 @@ fn check_inner(c: &Case, files: &Files, obs: &mut Obs) {
             threads: *t,
             buffer: *b,
             chaos: *ch,
+            ..base.clone()
+        });
+        max_threads = max_threads.max(*t);
+    }
+    for (t, b, strat, seed) in &c.sched_variants {
+        all_variants.push(Variant {
+            threads: *t,
+            buffer: *b,
+            chaos: 0,
+            sched: Some((strat.clone(), *seed)),
             ..base.clone()
         });
         max_threads = max_threads.max(*t);
@@ -1076,6 +1249,44 @@ fn check_inner(c: &Case, files: &Files, obs: &mut Obs) {
             obs.check(fr == f0, "fast-forward-zero", || "fast_forward(0) changes the stream".to_string());
         }
     }
+    // 6. history independence: after iter(), the stream depends only on the loader's current
+    // (epoch, fast_forward), not on what was done with the object before
+    if !c.history.is_empty() {
+        let (mut ep, mut ff) = (c.epoch, 0usize);
+        for op in &c.history {
+            match op {
+                Op::SetEpoch(e) => ep = *e,
+                Op::SetFf(k) => ff = *k,
+                _ => {}
+            }
+        }
+        let (t, b, _) = c.variants[0];
+        let used = Variant {
+            threads: t,
+            buffer: b,
+            history: c.history.clone(),
+            ..base.clone()
+        };
+        let fresh = Variant {
+            epoch: Some(ep),
+            ff,
+            ..base.clone()
+        };
+        let (Some(bu), Some(bf)) = (run(&used, obs), run(&fresh, obs)) else {
+            return;
+        };
+        obs.check(bu == bf, "history-dependent-stream", || {
+            format!(
+                "a loader with history {:?} yields {} batches / {} items after its final iter(); a fresh loader with epoch={ep} fast_forward={ff} yields {} / {}",
+                c.history,
+                bu.len(),
+                flat(&bu).len(),
+                bf.len(),
+                flat(&bf).len()
+            )
+        });
+        obs.tag("loader-history");
+    }
     let randomised = is_random(&c.pre)
         || c.pre_per_source.iter().any(is_random)
         || !matches!(c.post, Post::None | Post::Clip);
@@ -1084,6 +1295,8 @@ fn check_inner(c: &Case, files: &Files, obs: &mut Obs) {
     obs.add("loader_runs", runs);
     obs.add("items_in_reference_stream", f0.len() as u64);
     obs.max("max_batches", b0.len() as u64);
+    obs.tag_if(!c.sched_variants.is_empty(), "controlled-schedule-variant");
+    obs.add("controlled_schedule_runs", c.sched_variants.len() as u64);
     obs.tag_if(c.shuffle, "shuffle");
     obs.tag_if(c.sort, "sort");
     obs.tag_if(c.seed.is_none(), "seed-none");
@@ -1179,6 +1392,9 @@ pub fn child(spec: &str) -> i32 {
         shuffle: c.shuffle,
         sort: c.sort,
         chaos: 0,
+        sched: None,
+        epoch: None,
+        history: vec![],
     };
     let r = run_loader(&c, &files, &v);
     let _ = std::fs::remove_dir_all(&files.dir);
